@@ -192,7 +192,7 @@ impl Table for Slit {
         if level == 0 {
             vec![Ctor::new(2, 3, 2)]
         } else {
-            vec![Ctor::new(2, 3, 2), Ctor::new(0, 0, 0), Ctor::new(1, 1, 1), Ctor::new(2, 2, 2), Ctor::new(2, 60, 2), Ctor::new(2, 256, 2), Ctor::new(1, 300, 2)]
+            vec![Ctor::new(2, 3, 2), Ctor::new(0, 0, 0), Ctor::new(1, 1, 1), Ctor::new(2, 2, 2), Ctor::new(2, 60, 2), Ctor::new(2, 256, 2), Ctor::new(1, 300, 2), Ctor::new(3, 3, 2), Ctor::new(4, 2, 2), Ctor::new(5, 3, 2), Ctor::new(6, 4, 2)]
         }
     }
     fn alphabet(&self, c: &Ctor, _h: &[Op], level: u8) -> Vec<Op> {
